@@ -71,7 +71,7 @@ def generate(seed, tier):
     if checks and swarm.random() < 0.25:
         checks.insert(swarm.randint(0, len(checks)), ["uniq", "IsUnique", "f0"])
     spec = {"format": fmt, "header": swarm.choice([0, 0, 1, 2]), "fields": fields, "checks": checks,
-            "allowed": swarm.choice([None, [32, 126]])}
+            "allowed": swarm.choice([None, None, [32, 126], [32, 126], [33, 126]])}
     pool = ["ab", "ab", "xa", "ya", "b", "", "a!", "aü", "abcde", " a", "xy"]
     if fmt == "delimited":
         pool.append("a\nb")  # a line break inside a cell
